@@ -82,11 +82,11 @@ func specSubSat(cur uint64, n int) uint64 {
 //@   assume#no-nil-fragments forall i int :: 0 <= i && i < len(set.chunks) ==> set.chunks[i] != nil
 //@   loop 1 invariant#contiguous-so-far rangeIdx <= len(set.chunks) && (rangeIdx > 0 ==> lastTSN == set.chunks[rangeIdx-1].tsn)
 //@   loop 1 invariant#contiguous-prefix forall j int :: 1 <= j && j < rangeIdx ==> set.chunks[j].tsn == set.chunks[j-1].tsn+1
-//@   ensures#complete-means-first-to-last-without-a-hole{C01,C06} result ==> len(set.chunks) > 0 && set.chunks[0].beginningFragment &&
+//@   ensures#complete-means-first-to-last-without-a-hole{C01,C06,C16} result ==> len(set.chunks) > 0 && set.chunks[0].beginningFragment &&
 //@      set.chunks[len(set.chunks)-1].endingFragment
-//@   ensures#complete-means-consecutive-tsns{C01,C06} result ==> forall j int :: 1 <= j && j < len(set.chunks) ==> set.chunks[j].tsn == set.chunks[j-1].tsn+1
+//@   ensures#complete-means-consecutive-tsns{C01,C06,C16} result ==> forall j int :: 1 <= j && j < len(set.chunks) ==> set.chunks[j].tsn == set.chunks[j-1].tsn+1
 //@   modifies nothing
-//@   tags C01 C06
+//@   tags C01 C06 C16
 
 //@ func chunkSetMID.isComplete
 //@   assume#no-nil-fragments forall i int :: 0 <= i && i < len(set.chunks) ==> set.chunks[i] != nil
@@ -99,3 +99,13 @@ func specSubSat(cur uint64, n int) uint64 {
 //@      set.chunks[j].fragmentSequenceNumber == set.chunks[j-1].fragmentSequenceNumber+1
 //@   modifies nothing
 //@   tags C01 C06 C17
+
+// ---- C07: a forward-TSN moves the ordered delivery cursor forward or not at all ----
+
+//@ func reassemblyQueue.forwardTSNForOrdered
+//@   ensures#cursor-moves-forward-only{C07,C16} r.nextSSN == ite(old(sna16LTE(r.nextSSN, lastSSN)), lastSSN+1, old(r.nextSSN))
+//@   tags C07
+
+//@ func reassemblyQueue.forwardTSNForOrderedMID
+//@   ensures#cursor-moves-forward-only{C07,C16} r.nextMID == ite(old(sna32LTE(r.nextMID, lastMID)), lastMID+1, old(r.nextMID))
+//@   tags C07
